@@ -110,6 +110,20 @@ fn value_origin(obs: &Obs) -> HashMap<u64, u64> {
     m
 }
 
+/// Compact transcript of one (session, lane): requests and frames merged by ticket (last 80).
+fn transcript(lf: &LaneFrames) -> Vec<String> {
+    let mut v: Vec<(u64, String)> = vec![];
+    for r in &lf.reqs {
+        v.push((r.t0, format!("{} -> {:?} {}", r.t0, r.kind, r.body.chars().take(60).collect::<String>())));
+    }
+    for f in &lf.frames {
+        v.push((f.ticket, format!("{} <- {} {}", f.ticket, kind_name(&f.kind), body_str(f))));
+    }
+    v.sort();
+    let n = v.len();
+    v.into_iter().skip(n.saturating_sub(80)).map(|x| x.1).collect()
+}
+
 struct LaneFrames<'a> {
     frames: Vec<&'a Frame>,
     reqs: Vec<&'a Req>,
@@ -326,6 +340,7 @@ pub fn check_all(obs: &Obs, out: &mut CaseOut) -> Summary {
             let mut open = false;
             let mut open_since: Option<u64> = None;
             let mut linked_seen = 0usize;
+            let mut explicit_used = 0usize;
             let mut synced_seen = 0usize;
             let mut lnf_seen = 0usize;
             let mut dup_budget_used = 0usize;
@@ -358,7 +373,28 @@ pub fn check_all(obs: &Obs, out: &mut CaseOut) -> Summary {
                         if unknown {
                             out.violation("C04", "linked-for-unknown-lane", "linked received for a lane that does not exist", json!({"lane": lane}));
                         }
-                        if linked_seen > links_started + syncs_started {
+                        // A `linked` must answer something this remote asked for. While the link is
+                        // open only an explicit (repeated) link request is answered by another
+                        // `linked`. A `linked` that opens a link answers an explicit request or is the
+                        // implicit link made for a sync; a sync whose answers straddle an unlink of
+                        // the same remote legitimately re-links more than once (each targeted answer
+                        // links an unlinked remote), so opening `linked`s are not counted against syncs.
+                        let justified = if open {
+                            if explicit_used < links_started {
+                                explicit_used += 1;
+                                true
+                            } else {
+                                false
+                            }
+                        } else if syncs_started > 0 {
+                            true
+                        } else if explicit_used < links_started {
+                            explicit_used += 1;
+                            true
+                        } else {
+                            false
+                        };
+                        if !justified {
                             out.violation(
                                 "C04",
                                 format!("linked-unmatched/{kind}/open={open}"),
@@ -367,6 +403,7 @@ pub fn check_all(obs: &Obs, out: &mut CaseOut) -> Summary {
                             );
                         }
                         if !open {
+                            last_val = None;
                             open = true;
                             open_since = Some(f.ticket);
                             synced_in_link = false;
@@ -391,7 +428,13 @@ pub fn check_all(obs: &Obs, out: &mut CaseOut) -> Summary {
                         // answered, receipt]. Merged answers only widen it (sound).
                         let sync_reqs: Vec<&&Req> = lf.reqs.iter().filter(|r| r.kind == ReqKind::Sync).collect();
                         let t_q = sync_reqs.get(synced_seen - 1).map(|r| r.t0);
-                        if let (Some(t_q), false) = (t_q, is_probe && false) {
+                        // A remote that asks to unlink while its sync is outstanding has abandoned
+                        // that session: the statement says nothing about what it then receives.
+                        let interrupted = t_q.map_or(false, |tq| lf.reqs.iter().any(|r| r.kind == ReqKind::Unlink && r.t0 > tq && r.t0 < f.ticket));
+                        if interrupted {
+                            out.count("sync-interrupted-by-unlink");
+                        }
+                        if let (Some(t_q), false) = (t_q, interrupted) {
                             let t_s = f.ticket;
                             sum.sync_windows += 1;
                             if let Some(l) = value_idx(lane) {
@@ -432,16 +475,24 @@ pub fn check_all(obs: &Obs, out: &mut CaseOut) -> Summary {
                                         }
                                     }
                                     if !ok {
-                                        let class = match (&st, mt[l].fin.get(&k)) {
-                                            (KS::Absent, Some(_)) => "key-missing",
-                                            (KS::Val(_), None) => "key-stale-present",
-                                            _ => "key-stale-value",
+                                        let class = match &st {
+                                            KS::Absent => "key-missing",
+                                            KS::Val(_) => "key-stale",
                                         };
+                                        // Did this remote hold (or had it asked for) a link when it sent the sync request?
+                                        // (decided on its own requests: the last link/sync/unlink request
+                                        // before this sync request; frames lag behind requests)
+                                        let linked_at_request = lf
+                                            .reqs
+                                            .iter()
+                                            .filter(|r| r.t0 < t_q && matches!(r.kind, ReqKind::Link | ReqKind::Sync | ReqKind::Unlink))
+                                            .last()
+                                            .map_or(false, |r| r.kind != ReqKind::Unlink);
                                         out.violation(
                                             "C03",
-                                            format!("snapshot-outside-window/map/{class}/link-requested={}", links_started > 0),
+                                            format!("snapshot-outside-window/map/{class}/linked-at-request={linked_at_request}"),
                                             "at synced a key of the remote's replica is not in a state the lane held between the sync request and that instant",
-                                            json!({"lane": lane, "key": k, "replica": format!("{st:?}"), "timeline": format!("{tl:?}"), "window": [t_q, t_s]}),
+                                            json!({"lane": lane, "key": k, "replica": format!("{st:?}"), "timeline": format!("{tl:?}"), "window": [t_q, t_s], "transcript": transcript(lf), "history": format!("{:?}", obs.rec.map_hist[l].iter().filter(|x| x.0 + 400 > t_q && x.0 < t_s + 50).collect::<Vec<_>>())}),
                                         );
                                         break;
                                     }
@@ -562,34 +613,33 @@ pub fn check_all(obs: &Obs, out: &mut CaseOut) -> Summary {
                                             out.count("map-clear-received");
                                         }
                                     }
-                                    // C02 b: per-key states embed, in order, in the key's true timeline.
+                                    // C02 b: the *values* a remote sees for a key are an in-order
+                                    // subsequence of the values the key held (duplicates allowed: a sync
+                                    // re-sends current values). Removals are not ordered here: a targeted
+                                    // sync event carries the key's current value and may legitimately
+                                    // arrive before an older, still queued remove/clear, which the later
+                                    // standard events then repair; lost removals are caught by the
+                                    // convergence rule, stale ones by the snapshot rule.
                                     for (k, st) in touched {
+                                        let KS::Val(v) = st else { continue };
                                         let tl = mt[l].keys.get(&k).cloned().unwrap_or_default();
-                                        // position 0 = initial Absent, position j+1 = after change j
+                                        let pos = tl.iter().position(|x| x.2 == KS::Val(v));
                                         let p = key_ptr.get(&k).copied().unwrap_or(0);
-                                        let state_at = |pos: usize| if pos == 0 { KS::Absent } else { tl[pos - 1].2.clone() };
-                                        let mut found = None;
-                                        for pos in p..=tl.len() {
-                                            if state_at(pos) == st {
-                                                found = Some(pos);
-                                                break;
-                                            }
-                                        }
-                                        match found {
+                                        match pos {
                                             Some(pos) => {
-                                                if pos > p + 1 {
+                                                if pos < p {
+                                                    out.violation(
+                                                        "C02",
+                                                        "per-key-order/older-value-after-newer",
+                                                        "a remote received an older value of a key after a newer one",
+                                                        json!({"lane": lane, "key": k, "value": v, "timeline": format!("{tl:?}"), "transcript": transcript(lf)}),
+                                                    );
+                                                } else if pos > p + 1 {
                                                     out.count("map-key-states-skipped");
                                                 }
-                                                key_ptr.insert(k, pos);
+                                                key_ptr.insert(k, p.max(pos));
                                             }
-                                            None => {
-                                                out.violation(
-                                                    "C02",
-                                                    format!("per-key-order/{}", if matches!(st, KS::Absent) { "removal" } else { "update" }),
-                                                    "the states a remote saw for a key are not an in-order subsequence of the states that key held",
-                                                    json!({"lane": lane, "key": k, "state": format!("{st:?}"), "timeline": format!("{tl:?}"), "position": p}),
-                                                );
-                                            }
+                                            None => {} // reported as invented-entry above
                                         }
                                     }
                                 }
@@ -625,6 +675,8 @@ pub fn check_all(obs: &Obs, out: &mut CaseOut) -> Summary {
             let mut open_at_q = false;
             let mut open_at_q_since = 0;
             let mut synced_at_q = false;
+            let mut closed_at = 0u64;
+            let mut opened_by = "link";
             for f in lf.frames.iter().filter(|f| f.ticket < q) {
                 match f.kind {
                     FrameKind::Linked => {
@@ -632,9 +684,19 @@ pub fn check_all(obs: &Obs, out: &mut CaseOut) -> Summary {
                             open_at_q = true;
                             open_at_q_since = f.ticket;
                             synced_at_q = false;
+                            // opened by an explicit link request issued since the last close?
+                            // which request came first since the last close: a sync or a link?
+                            let first = lf.reqs.iter().find(|r| matches!(r.kind, ReqKind::Link | ReqKind::Sync) && r.t0 > closed_at && r.t0 < f.ticket);
+                            opened_by = match first {
+                                Some(r) if r.kind == ReqKind::Link => "link",
+                                _ => "sync",
+                            };
                         }
                     }
-                    FrameKind::Unlinked => open_at_q = false,
+                    FrameKind::Unlinked => {
+                        open_at_q = false;
+                        closed_at = f.ticket;
+                    }
                     FrameKind::Synced => synced_at_q = true,
                     _ => {}
                 }
@@ -709,9 +771,9 @@ pub fn check_all(obs: &Obs, out: &mut CaseOut) -> Summary {
                             };
                             out.violation(
                                 "C02",
-                                format!("replica-diverged/{class}/synced={synced_at_q}"),
+                                format!("replica-diverged/{class}/synced={synced_at_q}/opened-by={opened_by}"),
                                 "the agent is quiescent and the remote has drained its channel, but applying the operations it received does not give the lane's map",
-                                json!({"lane": lane, "replica": format!("{rep:?}"), "lane_map": format!("{truth:?}")}),
+                                json!({"lane": lane, "replica": format!("{rep:?}"), "lane_map": format!("{truth:?}"), "transcript": transcript(lf)}),
                             );
                         }
                     }
